@@ -30,13 +30,13 @@ import (
 )
 
 type cjob struct {
-	fn   string         // function under test (part of the finding key)
-	in   any            // replayable description of the call
-	call func() string  // the call on the library, rendered canonically
-	want string         // value by the RFC definition ("" = only the sequential value is known)
-	src  string         // where want comes from
-	seq  string         // the value of the call when it ran alone, before any goroutine started
-	skip bool           // the sequential value already differs from the definition (reported by the ordinary streams)
+	fn   string        // function under test (part of the finding key)
+	in   any           // replayable description of the call
+	call func() string // the call on the library, rendered canonically
+	want string        // value by the RFC definition ("" = only the sequential value is known)
+	src  string        // where want comes from
+	seq  string        // the value of the call when it ran alone, before any goroutine started
+	skip bool          // the sequential value already differs from the definition (reported by the ordinary streams)
 }
 
 type cIn struct {
@@ -387,10 +387,7 @@ func runConcurrent(r *Rng, tier string) {
 	// 2. one function at a time, every goroutine its own argument (and, second half, all goroutines the same argument)
 	for _, fn := range fns {
 		js := byFn[fn]
-		budget := 3000 * mult
-		if fn == "KeyTag" || fn == "ValidityPeriod" {
-			budget = 1500 * mult
-		}
+		budget := 6000 * mult
 		run("same-function", G, func(g int) []step {
 			a, b := js[g%len(js)], js[(g*7+3)%len(js)]
 			return []step{{a, reps(a, budget)}, {b, reps(b, budget)}}
@@ -424,7 +421,7 @@ func runConcurrent(r *Rng, tier string) {
 		for round := 0; round < 2*mult; round++ {
 			for i := 0; i < len(all); i++ {
 				j := all[(g*5+i*s)%len(all)]
-				p = append(p, step{j, reps(j, 40)})
+				p = append(p, step{j, reps(j, 60)})
 			}
 		}
 		return p
